@@ -3,7 +3,7 @@
    shared with harness/fs/main.go, the observable directory tree, rendering of system-call
    traces, and the crash monitor durable_ok that enumerates every crash point and loss choice
    of a finite observed trace. Definitions only. *)
-From SL Require Import Base.Bytes FS.Model.
+From SL Require Import Base.Bytes FS.Model FS.Fault.
 Import ListNotations.
 Open Scope nat_scope.
 
@@ -260,6 +260,12 @@ Definition trace_up (s : fs) (key data : bytes) (imm : bool) (sfx : bytes) (fd0 
   trace_of (upload store key data imm sfx [] fd0 s).
 Definition trace_discard (s : fs) (key : bytes) (fd0 : nat) : list sys :=
   trace_of (discard store key fd0 s).
+(* an upload during which the kernel lets a file grow to `limit` bytes only: when the data are
+   longer, write(2) on the temporary file lets the first `limit` bytes through and then fails
+   (FS/Fault.v; the errno is not part of a trace) *)
+Definition trace_up_fault (s : fs) (key data : bytes) (imm : bool) (sfx : bytes) (fd0 : nat) (limit : nat) : list sys :=
+  if Nat.leb (length data) limit then trace_up s key data imm sfx fd0
+  else trace_of (upload_fault (firstn limit data) EINVAL store key data imm sfx [] fd0 s).
 
 (* ---- the crash monitor ---- *)
 
